@@ -80,9 +80,11 @@ type pairLine struct {
 	E2     *vx.Expr `json:"e2"`
 	R1     vx.Res   `json:"r1"`
 	R2     vx.Res   `json:"r2"`
+	GBs    [][]int  `json:"gbs"`
 	Steps  []struct {
 		E   *vx.Expr `json:"e"`
 		Res vx.Res   `json:"res"`
+		By  []vx.Res `json:"by"` // the answer with each group-by list of the setup line
 	} `json:"steps"`
 }
 
@@ -166,6 +168,7 @@ func replayCacheSeq(args []string) error {
 	defer os.RemoveAll(dir)
 	rep := &vx.Report{}
 	var path string
+	gbs := [][]int{{}}
 	err := vx.ReadLines(*in, func(line []byte) error {
 		var ln pairLine
 		if err := json.Unmarshal(line, &ln); err != nil {
@@ -173,6 +176,9 @@ func replayCacheSeq(args []string) error {
 		}
 		if ln.Tag == "setup" {
 			var err error
+			if len(ln.GBs) > 0 {
+				gbs = ln.GBs
+			}
 			path, err = buildIndex(dict, dir, "seq.updog", "mem", ln.Rows)
 			return err
 		}
@@ -188,9 +194,16 @@ func replayCacheSeq(args []string) error {
 			}
 			for k, st := range ln.Steps {
 				rep.Steps++
-				got := dict.ResOf(vx.Exec(idx, dict.ToQuery(vx.Query{E: st.E})))
-				if !got.Equal(st.Res) {
-					rep.Mismatch(map[string]any{"kind": "cache-seq", "capacity": capacity, "mode": mode, "steps": ln.Steps[:k+1], "got": got, "want": st.Res})
+				// group-by list of this step: rotates with sequence number, position and capacity so that every
+				// (query, list) combination occurs before and after every other one
+				gi, want := 0, st.Res
+				if len(st.By) == len(gbs) && ci > 0 {
+					gi = (rep.Behaviours/(1+k) + k*ci + ci) % len(gbs)
+					want = st.By[gi]
+				}
+				got := dict.ResOf(vx.Exec(idx, dict.ToQuery(vx.Query{E: st.E, GB: gbs[gi]})))
+				if !got.Equal(want) {
+					rep.Mismatch(map[string]any{"kind": "cache-seq", "capacity": capacity, "mode": mode, "steps": ln.Steps[:k+1], "gb": gbs[gi], "got": got, "want": want})
 					break
 				}
 			}
@@ -374,10 +387,18 @@ func (r *libRec) scenarioCache(i int) {
 	for rep := 0; rep < 2; rep++ {
 		for _, q := range qs {
 			var gb []int
-			if rng.Intn(6) == 0 {
-				gb = []int{1 + rng.Intn(ncols)}
+			if rng.Intn(3) == 0 {
+				for k := 1 + rng.Intn(3); k > 0; k-- {
+					gb = append(gb, 1+rng.Intn(ncols))
+				}
 			}
 			r.exec(1, idx, vx.Query{E: q, GB: gb})
+		}
+		// single tests grouped by their own column first (every matching row has that value) and another column
+		for _, l := range leaves {
+			if rng.Intn(2) == 0 {
+				r.exec(1, idx, vx.Query{E: &vx.Expr{Op: "eq", Col: l[0], Val: l[1]}, GB: []int{l[0], 1 + l[0]%ncols}})
+			}
 		}
 	}
 	// caller-held expression trees, modified in place between executions (the query that is executed
